@@ -732,6 +732,22 @@ class C17:
 
 # ------------------------------------------------------------------------------------------- C18
 
+def enc_project(ans):
+    """Order-independent view of an encoder answer (map / Dict iteration order is arbitrary):
+    OK -> sorted chunk multiset; ERR -> error class without the count of chunks already written."""
+    f = ans.split(" ")
+    if f[0] == "OK":
+        return "OK " + ",".join(sorted(f[1].split(","))) if len(f) > 1 else "OK"
+    if f[0] == "ERR":
+        return " ".join(f[:2])
+    return ans
+
+
+def enc_tie(ctx, line, g, l, v):
+    multi = V.max_entries(v) > 1
+    return ctx.tie(line, g, l, project=enc_project if multi else None)
+
+
 class C18:
     prop = "C18"
     lean_module = "Ogorek.Props.C18"
@@ -798,8 +814,7 @@ class C18:
                     ctx.violate("Decode panicked", line, "value or error", g)
             else:
                 rh, p, v, pd, su = info
-                multi = V.max_entries(v) > 1
-                ok = ctx.tie(line, g, l, project=(lambda s: ",".join(sorted(s.split(" ", 1)[-1].split(",")))) if multi else None)
+                enc_tie(ctx, line, g, l, v)
                 ctx.count(f"refhook={rh}:p{p}:{g.split(' ')[0]}{(':' + g.split(' ')[1]) if g.startswith('ERR') else ''}")
                 if rh == "S" and g.startswith("OK "):
                     data = bytes.fromhex("".join(c for c in g[3:].split(",") if c != "-"))
